@@ -67,3 +67,8 @@ PARTIAL += [
     "request alignment; that the UTF-8 and the UTF-16 encoding of the same text decode to the SAME units "
     "(C11_same_units_any_signature_full) is stated but not proved — it needs the encoders and their round-trip arithmetic",
 ]
+REQUIRED += ["CifModel.C11_same_units_any_signature_partial"]
+PARTIAL += [
+    "C11_same_units_any_signature_partial proves the statement of C11_same_units_any_signature_full (a `def … : Prop` in "
+    "Props/C08Stream.lean) for ASCII text only — the characters CIF syntax itself consists of; non-ASCII scalar values are missing",
+]
